@@ -3,6 +3,7 @@ from __future__ import annotations
 
 import itertools
 import math
+import random
 import warnings
 from fractions import Fraction
 
@@ -24,8 +25,18 @@ RULE = (
     "rank for every alternative, another listing order, with and without ties).  Every cell (i, j) of corr/cov/r2_score/"
     "distance is compared (1e-9) with the statistic recomputed in the harness from columns i and j of the implementation's "
     "own to_dataframe(untied=...); two rankings that give every alternative the same rank must show the self-comparison "
-    "value.  Non-trivial: a ranking of length >= 2; a comparator in which two rankings "
-    "list the alternatives in different orders or one has ties.  Distinct by case hash."
+    "value.  (c) distance() with a NON-default metric (correlation, cosine, seuclidean, cityblock, euclidean, sqeuclidean, "
+    "chebyshev, canberra, braycurtis, minkowski p=3 / 1.5, jensenshannon, jaccard; mahalanobis on 4-6 rankings of 2-3 "
+    "alternatives): 1-2 metrics on every comparator of (b), both untied settings, plus comparators in which one or more "
+    "rankings are ALL TIED (always asked for correlation and cosine): the table must be square over the names, 0 (1e-9) for a "
+    "ranking against itself and against a re-listed copy, and every other cell the metric of the two frame columns computed "
+    "with scipy's two-vector function (cells whose recomputation is NaN are skipped).  (d) HISTORIES over one caller-owned "
+    "numpy buffer (int64/int32/uint8/float64; optionally the labels in a second object array): ranking 1 is built from the "
+    "buffer, the buffer is rewritten IN PLACE (reshuffled / partly rewritten / refilled), ranking 2 is built from the same "
+    "buffer, ..., the comparator is built, the buffer is rewritten once more; every RankResult and every table (taken before "
+    "and after the last rewrite) must show the values each ranking was built with; the same for a single ranking.  "
+    "Non-trivial: a ranking of length >= 2; a comparator in which two rankings "
+    "list the alternatives in different orders or one has ties, or built from a shared buffer.  Distinct by case hash."
 )
 ASSUMPTIONS = [
     "np.argsort(kind='stable') modelled as a stable insertion sort of positions (validated here on every case)",
@@ -34,6 +45,9 @@ ASSUMPTIONS = [
     "the statistics in corr/cov/r2_score/distance are pandas/sklearn/scipy (Series.corr / Series.cov / "
     "sklearn.metrics.r2_score(earlier column, later column), filled symmetrically / scipy hamming): the harness recomputes "
     "every cell with the same library function from the implementation's own label-aligned frame",
+    "distance(metric=...) is scipy.spatial.distance.pdist over the rankings: each cell is recomputed with scipy's two-vector "
+    "function of the same name; seuclidean / mahalanobis with pdist's documented defaults (V = variance, VI = inverse "
+    "covariance of every alternative's rank over the rankings of the comparator)",
 ]
 PARTIAL = (
     "the values of the pairwise statistics are external (pandas/sklearn/scipy) and not modelled in Lean (recomputed in the "
@@ -222,6 +236,137 @@ def _bad_cmp_case(rng):
     return c
 
 
+# ---- distance() with a metric other than the default, and rankings built from one caller-owned buffer
+
+# (metric, kwargs, weight): the metrics scipy.spatial.distance.pdist offers that are meaningful on vectors of ranks
+METRICS = [
+    ("correlation", {}, 4), ("cosine", {}, 4), ("seuclidean", {}, 4), ("cityblock", {}, 2), ("euclidean", {}, 2),
+    ("sqeuclidean", {}, 1), ("chebyshev", {}, 1), ("canberra", {}, 1), ("braycurtis", {}, 1), ("minkowski", {"p": 3}, 1),
+    ("minkowski", {"p": 1.5}, 1), ("jensenshannon", {}, 1), ("jaccard", {}, 1),
+]
+BUFFER_DTYPES = ["int64", "int64", "int64", "int32", "float64", "uint8"]
+
+
+def pick_metrics(rng, k):
+    pool = [(m, kw) for m, kw, w in METRICS for _ in range(w)]
+    out = []
+    while len(out) < k:
+        m, kw = rng.choice(pool)
+        if all((m, kw) != (x["metric"], x["kwargs"]) for x in out):
+            out.append({"metric": m, "kwargs": dict(kw)})
+    return out
+
+
+def _alltied_cmp_case(rng, max_alts=9):
+    """a comparator in which at least one ranking is ALL TIED ([1, 1, ..., 1]); distance() is asked for 'correlation' and
+    'cosine' (and one more metric), with untied=False and untied=True"""
+    c = _cmp_case(rng, max_alts)
+    while len(c["ranks"][0]["alts"]) < 2:
+        c = _cmp_case(rng, max_alts)
+    rs = c["ranks"]
+    for j in rng.sample(range(len(rs)), rng.choice([1, 1, 2, len(rs)])):
+        rs[j]["values"] = [1] * len(rs[j]["values"])
+    c["metrics"] = [{"metric": "correlation", "kwargs": {}}, {"metric": "cosine", "kwargs": {}}]
+    extra = pick_metrics(rng, 1)[0]
+    if extra not in c["metrics"]:
+        c["metrics"].append(extra)
+    return c
+
+
+def _maha_cmp_case(rng):
+    """more rankings than alternatives (4-6 rankings of 2-3 alternatives, with ties): the only shape on which the
+    'mahalanobis' distance (covariance of the alternatives over the rankings) exists"""
+    n = rng.choice([2, 2, 3])
+    m = rng.randint(n + 2, 6)
+    base = G.labels(rng, G.LABEL_POOL_ALT, n)
+    names = rng.sample(NAME_POOL, m)
+    ranks = []
+    for j in range(m):
+        alts = list(base)
+        rng.shuffle(alts)
+        ranks.append({"name": names[j], "alts": alts, "values": random_dense(rng, n, rng.choice(["none", "some", "some"]))})
+    return {"kind": "cmp", "via": rng.choice(["ctor", "mkrank_cmp"]), "ranks": ranks,
+            "metrics": [{"metric": "mahalanobis", "kwargs": {}}, {"metric": "seuclidean", "kwargs": {}}]}
+
+
+def _reshuffled(rng, values):
+    v = list(values)
+    for _try in range(6):
+        rng.shuffle(v)
+        if v != list(values):
+            break
+    return v
+
+
+def _buffer_final(rng, last):
+    """what the caller leaves in the buffer after the last construction"""
+    how = rng.choice(["shuffle", "shuffle", "zeros", "reverse", "plus-one", "ones"])
+    n = len(last)
+    if how == "shuffle":
+        return _reshuffled(rng, last)
+    if how == "zeros":
+        return [0] * n
+    if how == "reverse":
+        return list(reversed(last))
+    if how == "plus-one":
+        return [x + 1 for x in last]
+    return [1] * n
+
+
+def _buffer_cmp_case(rng, max_alts=9):
+    """a multi-step history: ONE caller-owned numpy buffer holds the rank values; a RankResult is built from it, the
+    buffer is modified IN PLACE (reshuffled / partly rewritten / refilled), the next RankResult is built from the same
+    buffer, ...; then the comparator is built and the buffer is modified once more.  `values` of ranking j is what the
+    buffer held when ranking j was built."""
+    n = rng.choice([2, 3, 3, 4, 5, 6, 7, max_alts, rng.randint(2, max_alts)])
+    base = G.labels(rng, G.LABEL_POOL_ALT, n)
+    m = rng.randint(2, 5)
+    via = rng.choice(["ctor", "ctor", "mkrank_cmp"])
+    names = rng.sample(NAME_POOL, m) if via == "ctor" else [rng.choice(NAME_POOL[:6]) for _ in range(m)]
+    step = rng.choice(["shuffle", "shuffle", "shuffle", "fresh", "partial", "mixed"])
+    same_order = rng.random() < 0.3
+    vals = random_dense(rng, n, rng.choice(["none", "some", "some", "heavy"]))
+    first = list(base)
+    rng.shuffle(first)
+    ranks = []
+    for j in range(m):
+        if j:
+            how = step if step != "mixed" else rng.choice(["shuffle", "fresh", "partial"])
+            if how == "shuffle":
+                vals = _reshuffled(rng, vals)
+            elif how == "fresh":
+                vals = random_dense(rng, n, rng.choice(["none", "some", "heavy"]))
+            else:
+                raw = list(vals)
+                for _ in range(rng.randint(1, max(1, n // 2))):
+                    raw[rng.randrange(n)] = rng.randint(1, n)
+                vals = _dense(raw)
+        alts = list(first)
+        if not same_order:
+            rng.shuffle(alts)
+        ranks.append({"name": names[j], "alts": alts, "values": list(vals)})
+    return {"kind": "cmp", "via": via, "ranks": ranks, "metrics": pick_metrics(rng, 1),
+            "buffer": {"dtype": rng.choice(BUFFER_DTYPES), "alts_buffer": rng.random() < 0.4,
+                       "final": _buffer_final(rng, vals)}}
+
+
+def _buffer_rank_case(rng):
+    """a single ranking built from a caller-owned numpy array that is modified in place afterwards"""
+    n = rng.choice([2, 3, 4, 5, 8, 12, rng.randint(2, 30)])
+    c = _rank_case(rng, random_dense(rng, n, rng.choice(["heavy", "some", "none"])))
+    c["buffer"] = {"dtype": rng.choice(BUFFER_DTYPES), "alts_buffer": rng.random() < 0.4,
+                   "final": _buffer_final(rng, c["values"])}
+    return c
+
+
+def _with_metrics(rng, c, k):
+    """the same comparator, also asked for k distance tables with a non-default metric"""
+    if "metrics" not in c:
+        c["metrics"] = pick_metrics(rng, k)
+    return c
+
+
+
 def gen(ctx):
     rng = ctx.rng
     cases = []
@@ -248,6 +393,21 @@ def gen(ctx):
         cases.append(_relisted_cmp_case(rng, ctx.n(9, 15)))
     for i in range(ctx.n(12, 120)):
         cases.append(_bad_cmp_case(rng))
+    # distance() with non-default metrics: on every comparator above (a separate random stream: the comparators themselves
+    # are the ones generated before), plus comparators with an all-tied ranking, plus more rankings than alternatives
+    mrng = random.Random(rng.getrandbits(64))
+    for c in cases:
+        if c["kind"] == "cmp" and "bad" not in c:
+            _with_metrics(mrng, c, 1 if c.get("long") else 2)
+    for i in range(ctx.n(40, 500)):
+        cases.append(_alltied_cmp_case(rng, ctx.n(9, 15)))
+    for i in range(ctx.n(16, 200)):
+        cases.append(_maha_cmp_case(rng))
+    # histories over one caller-owned buffer that is modified in place between (and after) the constructions
+    for i in range(ctx.n(90, 1200)):
+        cases.append(_buffer_cmp_case(rng, ctx.n(9, 15)))
+    for i in range(ctx.n(60, 600)):
+        cases.append(_buffer_rank_case(rng))
     return cases
 
 
@@ -262,6 +422,17 @@ def search_gen(ctx):
         cases.append(_cmp_case(rng, 9))
     for i in range(200):
         cases.append(_relisted_cmp_case(rng, 9))
+    for c in cases:
+        if c["kind"] == "cmp":
+            _with_metrics(rng, c, 2)
+    for i in range(200):
+        cases.append(_alltied_cmp_case(rng, 9))
+    for i in range(60):
+        cases.append(_maha_cmp_case(rng))
+    for i in range(400):
+        cases.append(_buffer_cmp_case(rng, 9))
+    for i in range(200):
+        cases.append(_buffer_rank_case(rng))
     return cases
 
 
@@ -294,28 +465,67 @@ def _frame(df):
     return {"rows": [str(a) for a in df.index], "cols": [str(a) for a in df.columns], "cells": cells}
 
 
+def _rank_obs(res):
+    s = res.to_series(untied=True)
+    return {
+        "rank": [int(x) for x in res.rank_],
+        "untied": [int(x) for x in res.untied_rank_],
+        "series_values": [int(x) for x in s.to_numpy()],
+        "series_index": [str(a) for a in s.index],
+        "has_ties": bool(res.has_ties_),
+        "ties": {str(int(k)): int(v) for k, v in res.ties_.items()},
+    }
+
+
+class _Buffer:
+    """the caller's side of a history: ONE numpy array for the rank values (and optionally one for the labels), always
+    rewritten in place - the RankResults are all built from these same two objects"""
+
+    def __init__(self, spec, n):
+        self.values = np.zeros(n, dtype=spec["dtype"])
+        self.alts = np.empty(n, dtype=object) if spec.get("alts_buffer") else None
+
+    def load(self, alts, values):
+        self.values[:] = values  # in place
+        if self.alts is None:
+            return alts, self.values
+        self.alts[:] = alts  # in place
+        return self.alts, self.values
+
+    def scribble(self, values):
+        self.values[:] = values
+        if self.alts is not None:
+            self.alts[:] = self.alts[::-1].copy()
+
+
 def observe(case):
     from skcriteria.agg import RankResult
     from skcriteria.cmp import RanksComparator, mkrank_cmp
 
+    buf = _Buffer(case["buffer"], len(case["values"] if case["kind"] == "rank" else case["ranks"][0]["values"])) \
+        if "buffer" in case else None
     with warnings.catch_warnings(), np.errstate(all="ignore"):
         warnings.simplefilter("ignore")
         if case["kind"] == "rank":
             try:
-                res = RankResult("method", case["alts"], case["values"], {})
+                if buf is None:
+                    res = RankResult("method", case["alts"], case["values"], {})
+                else:
+                    res = RankResult("method", *buf.load(case["alts"], case["values"]), {})
             except Exception as e:
                 return {"err": G.err_name(e)}
-            s = res.to_series(untied=True)
-            return {
-                "rank": [int(x) for x in res.rank_],
-                "untied": [int(x) for x in res.untied_rank_],
-                "series_values": [int(x) for x in s.to_numpy()],
-                "series_index": [str(a) for a in s.index],
-                "has_ties": bool(res.has_ties_),
-                "ties": {str(int(k)): int(v) for k, v in res.ties_.items()},
-            }
+            if buf is None:
+                return _rank_obs(res)
+            before = _rank_obs(res)
+            buf.scribble(case["buffer"]["final"])  # the caller reuses the array
+            o = _rank_obs(res)
+            o["before"] = before
+            return o
         if case["kind"] == "cmp":
-            results = [RankResult(r["name"], r["alts"], r["values"], {}) for r in case["ranks"]]
+            if buf is None:
+                results = [RankResult(r["name"], r["alts"], r["values"], {}) for r in case["ranks"]]
+            else:  # every ranking from the same buffer, rewritten in place between the constructions
+                results = [RankResult(r["name"], *buf.load(r["alts"], r["values"]), {}) for r in case["ranks"]]
             try:
                 if case["via"] == "mkrank_cmp":
                     cmp = mkrank_cmp(*results)
@@ -324,6 +534,12 @@ def observe(case):
             except Exception as e:
                 return {"err": G.err_name(e)}
             o = {"names": [str(n) for n, _ in cmp.ranks], "len": len(cmp)}
+            if buf is not None:
+                o["mid"] = {"plain": _frame(cmp.to_dataframe(untied=False)), "untied": _frame(cmp.to_dataframe(untied=True)),
+                            "dist": _table(cmp.distance())}
+                buf.scribble(case["buffer"]["final"])  # ... and once more after the comparator exists
+                o["results_after"] = [{"rank": [int(x) for x in res.rank_], "untied": [int(x) for x in res.untied_rank_],
+                                       "index": [str(a) for a in res.alternatives]} for res in results]
             for u in (False, True):
                 key = "untied" if u else "plain"
                 o[key] = {
@@ -333,6 +549,14 @@ def observe(case):
                     "r2": _table(cmp.r2_score(untied=u)),
                     "dist": _table(cmp.distance(untied=u)),
                 }
+                extra = []
+                for mt in case.get("metrics", []):
+                    try:
+                        extra.append({"table": _table(cmp.distance(untied=u, metric=mt["metric"], **mt["kwargs"]))})
+                    except Exception as e:
+                        extra.append({"err": G.err_name(e)})
+                if extra:
+                    o[key]["dist_metric"] = extra
             return o
     raise KeyError(case["kind"])
 
@@ -458,6 +682,61 @@ def recompute_tables(frame):
     return out
 
 
+def recompute_distance(frame, metric, kwargs):
+    """distance(metric=...) recomputed cell by cell from the columns of a label-aligned frame with scipy's own two-vector
+    function of that metric: [[value | None (NaN / undefined)]]; None when the frame has holes or the metric has no
+    value on this collection (seuclidean: an alternative with the same rank everywhere - zero variance; mahalanobis:
+    singular or badly conditioned covariance)"""
+    from scipy.spatial import distance as sp_distance
+
+    cells = frame["cells"]
+    if any(x is None for row in cells for x in row):
+        return None
+    m = len(frame["cols"])
+    X = np.array([[row[j] for row in cells] for j in range(m)], dtype=float)  # one row per ranking
+    fn = getattr(sp_distance, metric)
+    args = ()
+    if metric == "seuclidean":
+        if m < 2:
+            return None
+        V = np.var(X, axis=0, ddof=1)  # variance of every alternative's rank over the rankings (scipy's default V)
+        if not np.all(V > 0):
+            return None
+        args = (V,)
+    elif metric == "mahalanobis":
+        if m <= X.shape[1]:
+            return None
+        CV = np.atleast_2d(np.cov(X.T))  # scipy's default VI: inverse covariance of the alternatives over the rankings
+        if not np.all(np.isfinite(CV)) or np.linalg.matrix_rank(CV) < CV.shape[0] or np.linalg.cond(CV) > 1e4:
+            return None
+        args = (np.linalg.inv(CV).T.copy(),)
+    out = [[None] * m for _ in range(m)]
+    with warnings.catch_warnings(), np.errstate(all="ignore"):
+        warnings.simplefilter("ignore")
+        for i in range(m):
+            for j in range(m):
+                out[i][j] = _num(fn(X[i], X[j], *args, **kwargs))
+    return out
+
+
+def frame_findings(fr, cols, names, alts, label, untied):
+    """to_dataframe against 'each alternative's rank under its own name': [(what, expected, observed)]"""
+    if fr["cols"] != names:
+        return [(f"{label}: columns are not the ranking names in order", names, fr["cols"])]
+    if sorted(fr["rows"]) != sorted(alts):
+        return [(f"{label}: rows are not the alternatives, each once", sorted(alts), fr["rows"])]
+    for i, a in enumerate(fr["rows"]):
+        for j, nme in enumerate(names):
+            if fr["cells"][i][j] != cols[j][a]:
+                return [(f"{label}[{nme!r}][{a!r}] is not the {'untied ' if untied else ''}rank that ranking {nme!r} gives to {a!r}"
+                         + (" (untied in that ranking's own listing order)" if untied else ""), cols[j][a], fr["cells"][i][j])]
+    return []
+
+
+def metric_label(mt):
+    return mt["metric"] + "".join(f", {k}={v}" for k, v in sorted(mt["kwargs"].items()))
+
+
 # --------------------------------------------------------------------------- model side
 
 
@@ -488,6 +767,12 @@ def judge(case, obs, replies):
             prop(f"RankResult refused a dense ranking with {obs['err']}", values, obs["err"])
             return out
         u = obs["untied"]
+        if "before" in obs:  # built from a caller-owned array that was modified in place afterwards
+            after = {k: v for k, v in obs.items() if k != "before"}
+            if after != obs["before"]:
+                k = next(k for k in after if after[k] != obs["before"][k])
+                prop(f"the RankResult changed when the array it was built from was modified in place afterwards ({k})",
+                     obs["before"][k], after[k])
         for what, e, o in check_untied(values, u):
             prop("untied_rank_: " + what, e, o)
         if obs["series_values"] != u or obs["series_index"] != alts:
@@ -535,28 +820,32 @@ def judge(case, obs, replies):
     if obs["names"] != names or obs["len"] != len(names):
         prop("comparator does not name its rankings as given", names, obs["names"])
         return out
+    if "results_after" in obs:  # every ranking was built from ONE buffer that the caller kept modifying in place
+        for r, nme, ra in zip(case["ranks"], names, obs["results_after"]):
+            if ra["rank"] != r["values"] or ra["index"] != r["alts"]:
+                prop(f"ranking {nme!r} no longer shows the ranks it was built with after the caller's buffer was modified in place",
+                     [r["alts"], r["values"]], [ra["index"], ra["rank"]])
+                break
+            if ra["untied"] != oracle_untied(r["values"]):
+                prop(f"ranking {nme!r}: untied ranks changed after the caller's buffer was modified in place",
+                     oracle_untied(r["values"]), ra["untied"])
+                break
+        if obs["mid"]["dist"] != obs["plain"]["dist"]:
+            prop("distance() changed when the caller's buffer was modified in place after the comparator was built",
+                 obs["mid"]["dist"], obs["plain"]["dist"])
     for u, key, reply in ((False, "plain", replies[0]), (True, "untied", replies[1])):
         o = obs[key]
         fr = o["frame"]
         cols = expected_columns(case, u)
         label = f"to_dataframe(untied={u})"
-        if fr["cols"] != names:
-            prop(f"{label}: columns are not the ranking names in order", names, fr["cols"])
+        ff = frame_findings(fr, cols, names, alts, label, u)
+        for what, e, g in ff:
+            prop(what, e, g)
+        if ff and ff[0][0].startswith(f"{label}: "):
             continue
-        if sorted(fr["rows"]) != sorted(alts):
-            prop(f"{label}: rows are not the alternatives, each once", sorted(alts), fr["rows"])
-            continue
-        done = False
-        for i, a in enumerate(fr["rows"]):
-            for j, nme in enumerate(names):
-                if fr["cells"][i][j] != cols[j][a]:
-                    prop(f"{label}[{nme!r}][{a!r}] is not the {'untied ' if u else ''}rank that ranking {nme!r} gives to {a!r}"
-                         + (" (untied in that ranking's own listing order)" if u else ""),
-                         cols[j][a], fr["cells"][i][j])
-                    done = True
-                    break
-            if done:
-                break
+        if "mid" in obs:  # the same frame, taken before the caller's last in-place modification of the buffer
+            for what, e, g in frame_findings(obs["mid"][key], cols, names, alts, label + " before the buffer was reused", u):
+                prop(what, e, g)
         # pairwise statistics: square over the names, self-comparison on the diagonal
         diag = diag_expectations(case, u)
         recomputed = recompute_tables(fr)
@@ -600,6 +889,41 @@ def judge(case, obs, replies):
                     prop(f"{sl}[{names[i]!r}][{names[j]!r}] is not the statistic of columns {names[i]!r} and {names[j]!r} "
                          f"of to_dataframe(untied={u}) (rankings aligned by alternative name)", exp, got)
                     break
+        # distance() with another metric: square over the names, 0 for a ranking against itself (and against a re-listed
+        # copy of itself), every other cell = that metric of the two columns of the implementation's own frame
+        for mt, t in zip(case.get("metrics", []), o.get("dist_metric", [])):
+            sl = f"distance(untied={u}, metric={metric_label(mt)})"
+            expd = recompute_distance(fr, mt["metric"], mt["kwargs"])
+            if "err" in t:
+                if expd is not None:
+                    prop(f"{sl} refused with {t['err']}", "a table", t["err"])
+                continue
+            t = t["table"]
+            if t["index"] != names or t["columns"] != names or len(t["values"]) != len(names) or \
+                    any(len(row) != len(names) for row in t["values"]):
+                prop(f"{sl} is not square over the ranking names", names, [t["index"], t["columns"]])
+                continue
+            bad = False
+            for j, nme in enumerate(names):
+                got = t["values"][j][j]
+                if got is None or not _close(got, 0.0):
+                    prop(f"{sl}[{nme!r}][{nme!r}] is not the self-comparison value", 0.0, got)
+                    bad = True
+                    break
+            if expd is None or bad:
+                continue
+            for i, j in itertools.product(range(len(names)), repeat=2):
+                if i == j or expd[i][j] is None:
+                    continue  # NaN for a legitimate reason (e.g. correlation distance to a constant ranking): skipped
+                got = t["values"][i][j]
+                if cols[i] == cols[j] and (got is None or not _close(got, 0.0)):
+                    prop(f"{sl}[{names[i]!r}][{names[j]!r}]: the two rankings give every alternative the same rank "
+                         f"(listed in another order) but the cell is not the self-comparison value", 0.0, got)
+                    break
+                if got is None or not _close(got, expd[i][j]):
+                    prop(f"{sl}[{names[i]!r}][{names[j]!r}] is not the {mt['metric']} distance of columns {names[i]!r} and "
+                         f"{names[j]!r} of to_dataframe(untied={u}) (rankings aligned by alternative name)", expd[i][j], got)
+                    break
         # correspondence: the Lean frame
         if "err" in reply or "driver_error" in reply:
             corr(f"{label}: model refuses", reply, "accepted")
@@ -619,7 +943,7 @@ def nontrivial(case, obs):
         return len(case["values"]) >= 2
     if "err" in obs:
         return True
-    return _different_orders(case) or any(len(set(r["values"])) != len(r["values"]) for r in case["ranks"])
+    return "buffer" in case or _different_orders(case) or any(len(set(r["values"])) != len(r["values"]) for r in case["ranks"])
 
 
 def tags(case, obs):
@@ -629,6 +953,8 @@ def tags(case, obs):
              "rank:n=%s" % (n if n <= 7 else "8-12" if n <= 12 else "13-100" if n <= 100 else "101+")]
         if n > 100 and any(case["values"][i] > case["values"][j] for i in range(n - 100) for j in (i + 100, n - 1)):
             t.append("rank:better-listed-100+-later")
+        if "buffer" in case:
+            t.append("rank:built-from-buffer-modified-afterwards")
         return t
     t = ["cmp", "cmp:via=" + case["via"]]
     if "err" in obs:
@@ -644,6 +970,16 @@ def tags(case, obs):
         t.append("cmp:relisted-copy")
     if any(len(set(r["values"])) != len(r["values"]) for r in case["ranks"]):
         t.append("cmp:has-ties")
+    alltied = any(len(r["values"]) > 1 and len(set(r["values"])) == 1 for r in case["ranks"])
+    if alltied:
+        t.append("cmp:all-tied-ranking")
+    if "buffer" in case:
+        t.append("cmp:one-buffer-history:" + case["buffer"]["dtype"] + ("+labels" if case["buffer"]["alts_buffer"] else ""))
+    for mt in case.get("metrics", []):
+        t.append("cmp:distance-metric=" + mt["metric"] + ("+all-tied" if alltied else ""))
+        for key, u in (("plain", False), ("untied", True)):
+            if "err" not in obs and recompute_distance(obs[key]["frame"], mt["metric"], mt["kwargs"]) is None:
+                t.append("skipped-undefined-metric:" + mt["metric"])
     for u in (False, True):
         d = diag_expectations(case, u)
         for stat in ("corr", "cov"):
